@@ -162,7 +162,7 @@ impl Prop for C14 {
         "case = ((family, operator) uniform over the 21 operator impls that exist: PolyK{Mul,MulAssign,Neg,Add,Translate}, PolyN{Translate}, Log<PolyK>{Mul,MulAssign,Translate}, IntOfLog<PolyK>{Add,Mul,MulAssign,Neg,Translate}, IntOfLogPoly4{Mul,Neg,Add,&+&,Sub,&-&,Translate}; degree 0..=8 uniform (125 (impl,degree) instances); operands with pairwise distinct finite numbers over the full exponent range (tiny, huge, ±0) or moderate ones; scalar from {0,-0,±1,±2,tiny,huge,random}). Oracle: every number of the result equals the single correctly rounded f64 operation on the corresponding input numbers (identical bits; the sign of a zero result is not pinned); translate changes only the additive constant; empty PolyN becomes [c]; `*=` equals `*`. Value clause for plain polynomials: result.evaluate(x) vs s·f(x), -f(x), f1(x)+f2(x), f(x)+c computed exactly from the inputs within the C01 bound plus one u per coefficient (when all terms are within 2^±900). Non-trivial: >=2 numbers per operand, pairwise distinct across operands (an index slip changes the result).".into()
     }
     fn cases(&self, tier: Tier) -> u64 {
-        tier.pick(400_000, 12_000_000)
+        tier.pick(1_500_000, 20_000_000)
     }
     fn strategy(&self, _tier: Tier) -> BoxedStrategy<Case> {
         let inst = instances();
